@@ -180,7 +180,7 @@ Bounded(w2, h2) ==
   /\ \A a \in Accts(w2) : \A t \in DOMAIN w2.acct[a].ctr : w2.acct[a].ctr[t] <= MaxCtr
   /\ \A a \in Accts(w2) : \A k \in DOMAIN w2.acct[a].esdt : Len(w2.acct[a].esdt[k].meta.uris) <= 2
 
-DirectNames == {"P01_DeliveryNominal", "P16_Price", "P10_RoundTrip", "P10_Accepted", "P11_ShapeVerdict", "P01_FailKeeps", "P02_Others", "P02_NoOverdraft", "P03_Authority", "P04_Immobile", "P04_NoCreditWhilePaused", "P04_FlagOnly",
+DirectNames == {"P04_FlagTakesEffect", "P01_DeliveryNominal", "P16_Price", "P10_RoundTrip", "P10_Accepted", "P11_ShapeVerdict", "P01_FailKeeps", "P02_Others", "P02_NoOverdraft", "P03_Authority", "P04_Immobile", "P04_NoCreditWhilePaused", "P04_FlagOnly",
                 "P05_Protected", "P05_KVExact", "P05_Frame", "P06_NoGasCreated", "P07_ReturnedNonce", "P07_CtrOnlyByCreate", "P08_Create",
                 "P08_OnlyUriAttr", "P08_WrongHash", "P09_Admissible", "P09_Rejected"}
 StepPred(name, wp, e, w2, hp, r) ==
@@ -196,6 +196,7 @@ StepPred(name, wp, e, w2, hp, r) ==
     [] name = "P16_Price" -> P16_Price(wp, e, w2, hp, r) [] name = "P10_RoundTrip" -> P10_RoundTrip(wp, e, w2, hp, r)
     [] name = "P10_Accepted" -> P10_Accepted(wp, e, w2, hp, r) [] name = "P11_ShapeVerdict" -> P11_ShapeVerdict(wp, e, w2, hp, r)
     [] name = "P01_DeliveryNominal" -> P01_DeliveryNominal(wp, e, w2, hp, r)
+    [] name = "P04_FlagTakesEffect" -> P04_FlagTakesEffect(wp, e, w2, hp, r)
     [] OTHER -> TRUE
 
 Finish(c, r, kind) ==
